@@ -1479,7 +1479,7 @@ def run(chk, replay=None):
                     fexp = (xexp if as_x else exp) if isx == as_x else None
                     ln = "file %s %s %s" % (hx(ext), csv_line(T, data).split(" ", 1)[1].rsplit(" ", 1)[0], hx(content))
                     cases.append(("file", ln, None, fexp, {"T": T, "ext": ext, "content": "xrff" if as_x else "csv"}))
-        for _ in range(600 if quick else 5000):
+        for _ in range(1000 if quick else 6000):
             H = gen_history(rng, chk.tier)
             ln, rend, exps = history_lines(H, rng=rng)
             cases.append(("hist", ln, None, {"hist": exps}, {"H": H, "rendered": rend}))
